@@ -42,7 +42,7 @@ package scheduler
 //@   requires graph_wf(g)
 //@   requires node.data.State.Status == NodeStatusNone
 //@   modifies node.data.State.Status, node.data.State.Error
-//@   ensures [C01 ready_iff_deps_ok] ready <==>
+//@   ensures [C01,C02 ready_iff_deps_ok] ready <==>
 //@        (forall j int :: 0 <= j && j < len(g.to[node.id]) ==> old(dep_ok(g.dict[g.to[node.id][j]])))
 //@   ensures [C01 ready_keeps_status] ready ==> node.data.State.Status == old(node.data.State.Status)
 //@   ensures [C02 label_justified] node.data.State.Status == old(node.data.State.Status) ||
@@ -54,7 +54,7 @@ package scheduler
 //@        (exists j int :: 0 <= j && j < len(g.to[node.id]) &&
 //@             (old(cancel_blocker(g.dict[g.to[node.id][j]])) || old(skip_blocker(g.dict[g.to[node.id][j]]))))
 //@        ==> node.data.State.Status != NodeStatusNone
-//@   loop 0 invariant [C01 ready_prefix] ready <==>
+//@   loop 0 invariant [C01,C02 ready_prefix] ready <==>
 //@        (forall j int :: 0 <= j && j <= idx ==> old(dep_ok(g.dict[g.to[node.id][j]])))
 //@   loop 0 invariant [C01 ready_unchanged] ready ==> node.data.State.Status == old(node.data.State.Status)
 //@   loop 0 invariant [C02 label_prefix] node.data.State.Status == old(node.data.State.Status) ||
@@ -179,12 +179,25 @@ package scheduler
 //@   trusted
 //@   modifies sc.handlers, heap(map(dag.HandlerType, *Node)), heap(alloc), ghost eff.env, ghost eff.fs
 
+// A handler node is run like a step: set up, executed once, torn down — and not at all in dry-run mode.
 //@ fn (*Scheduler).runHandlerNode(sc, ctx, node) (err)
-//@   props C04
-//@   trusted
-//@   modifies node.data.State, node.data.Step, ghost hruns, ghost hlog, ghost eff.exec, ghost eff.fs, ghost eff.env
+//@   props C03 C04
+//@   modifies node.data.State, node.data.Step.CmdWithArgs, node.data.Step.Stdout, node.data.Step.Stderr, node.data.Step.Dir,
+//@            node.data.Step.Command, node.data.Step.Args, node.logFile, node.logWriter, node.stdoutFile, node.stdoutWriter,
+//@            node.stderrFile, node.stderrWriter, node.scriptFile, node.cmd, node.cancelFunc, node.outputReader, node.outputWriter, node.done,
+//@            ghost nsetup, ghost nexec, ghost execfail, ghost dirty, ghost ntear, ghost eff.exec, ghost eff.fs, ghost eff.env, heap(alloc), ghost obs.run_calls, ghost obs.run_err, ghost outvar.stores, ghost outvar.key, ghost outvar.val, ghost env.key, ghost env.val, ghost obs.buf_string
+//@   records hruns = old(hruns) + 1
+//@   records hlog = upd(old(hlog), old(hruns), node)
 //@   ensures err == nil
-//@   ensures hruns == old(hruns) + 1 && hlog == upd(old(hlog), old(hruns), node)
+//@   ensures [C03 dry_handler_runs_nothing] sc.dry ==> (nexec == old(nexec) && nsetup == old(nsetup) && ntear == old(ntear) &&
+//@        eff.exec == old(eff.exec) && eff.fs == old(eff.fs) && eff.env == old(eff.env) && obs.run_calls == old(obs.run_calls))
+//@   ensures [C04 handler_outcome_is_command_outcome] !sc.dry && obs.run_calls == old(obs.run_calls) + 1 ==>
+//@        (node.data.State.Status == NodeStatusSuccess <==> obs.run_err == nil)
+//@   ensures [C04 handler_ends_finished_or_failed] node.data.State.Status == NodeStatusSuccess || node.data.State.Status == NodeStatusError
+//@   ensures [C04 handler_command_runs_at_most_once] nexec == old(nexec) || nexec == upd(old(nexec), node, old(nexec[node]) + 1)
+//@   ensures [C04 handler_runs_unless_setup_failed] !sc.dry ==> (nsetup == upd(old(nsetup), node, old(nsetup[node]) + 1) &&
+//@        (node.data.State.Status == NodeStatusSuccess ==> (nexec[node] == old(nexec[node]) + 1 && !execfail[node])))
+//@   ensures [C12 handler_torn_down] nexec[node] != old(nexec[node]) ==> !dirty[node]
 
 // ---------------------------------------------------------------------------------------------
 // Node resources and execution (ghost counters make "how often" and "in which order" expressible)
@@ -203,14 +216,33 @@ package scheduler
 //@            n.stderrWriter, n.scriptFile, ghost nsetup, ghost eff.env, ghost eff.fs
 //@   ensures nsetup == upd(old(nsetup), n, old(nsetup[n]) + 1)
 
-//@ fn (*Node).Execute(n, ctx) (err)
-//@   props C03 C11 C12
+// Execute: the step's outcome is the outcome of its command.  Whatever else Execute does (output capture, log
+// path export), the error it returns is the one the executor's Run returned; if no command was run it is an error.
+//@ ghost obs.run_calls int         // executor Run() calls so far
+//@ ghost obs.run_err error         // what the last Run() returned
+//@ fn (*Node).setupExec(n, ctx) (cmd, err)
+//@   props C02 C11 C12
 //@   trusted
-//@   modifies n.data.State.Error, n.data.Step.Command, n.data.Step.Args, n.cmd, n.cancelFunc, n.outputReader, n.outputWriter,
-//@            ghost nexec, ghost execfail, ghost dirty, ghost eff.exec, ghost eff.env, ghost eff.fs
-//@   ensures nexec == upd(old(nexec), n, old(nexec[n]) + 1)
-//@   ensures execfail == upd(old(execfail), n, err != nil)
-//@   ensures dirty == upd(old(dirty), n, true)
+//@   modifies n.data.Step.Command, n.data.Step.Args, n.cmd, n.cancelFunc, n.outputReader, n.outputWriter, heap(alloc), ghost eff.fs
+//@   ensures err == nil ==> cmd != nil
+
+//@ fn (*Node).Execute(n, ctx) (err)
+//@   props C02 C03 C11 C12
+//@   modifies n.data.State.Error, n.data.Step.Command, n.data.Step.Args, n.cmd, n.cancelFunc, n.outputReader, n.outputWriter, heap(alloc),
+//@            ghost obs.run_calls, ghost obs.run_err, ghost outvar.stores, ghost outvar.key, ghost outvar.val, ghost eff.exec, ghost eff.env, ghost eff.fs,
+//@            ghost env.key, ghost env.val, ghost obs.buf_string
+//@   records nexec = upd(old(nexec), n, old(nexec[n]) + 1)
+//@   records execfail = upd(old(execfail), n, err != nil)
+//@   records dirty = upd(old(dirty), n, true)
+//@   ensures [C02 step_outcome_is_command_outcome] obs.run_calls == old(obs.run_calls) + 1 ==> err == obs.run_err
+//@   ensures [C02 no_command_no_success] obs.run_calls == old(obs.run_calls) ==> err != nil
+//@   ensures [C03 command_runs_at_most_once_per_execution] obs.run_calls == old(obs.run_calls) || obs.run_calls == old(obs.run_calls) + 1
+//@   ensures [C11 capture_only_when_configured] outvar.stores != old(outvar.stores) ==> (outvar.stores == old(outvar.stores) + 1 && n.data.Step.Output != "")
+//@   ensures [C11 captured_under_its_name] outvar.stores != old(outvar.stores) ==> (isType(outvar.key, "string") && asType(outvar.key, "string") == n.data.Step.Output)
+//@   ensures [C11 stored_as_name_equals_trimmed_output] outvar.stores != old(outvar.stores) ==>
+//@        (isType(outvar.val, "string") && asType(outvar.val, "string") == n.data.Step.Output + "=" + trim_space(obs.buf_string))
+//@   ensures [C11 capture_is_exported_trimmed] outvar.stores != old(outvar.stores) ==>
+//@        (eff.env != old(eff.env) && env.key == n.data.Step.Output && env.val == trim_space(obs.buf_string))
 
 //@ fn (*Node).teardown(n) (err)
 //@   props C03 C12
@@ -230,9 +262,12 @@ package scheduler
 //@   ensures !sc.dry ==> nsetup == upd(old(nsetup), node, old(nsetup[node]) + 1)
 
 //@ fn (*Scheduler).execNode(sc, ctx, n) (err)
-//@   props C03 C12
-//@   modifies n.data.State.Error, n.data.Step.Command, n.data.Step.Args, n.cmd, n.cancelFunc, n.outputReader, n.outputWriter,
-//@            ghost nexec, ghost execfail, ghost dirty, ghost eff.exec, ghost eff.env, ghost eff.fs
+//@   props C02 C03 C12
+//@   modifies n.data.State.Error, n.data.Step.Command, n.data.Step.Args, n.cmd, n.cancelFunc, n.outputReader, n.outputWriter, heap(alloc),
+//@            ghost nexec, ghost execfail, ghost dirty, ghost eff.exec, ghost eff.env, ghost eff.fs, ghost obs.run_calls, ghost obs.run_err, ghost outvar.stores, ghost outvar.key, ghost outvar.val, ghost env.key, ghost env.val, ghost obs.buf_string
+//@   ensures [C02 step_outcome_is_command_outcome] !sc.dry && obs.run_calls == old(obs.run_calls) + 1 ==> err == obs.run_err
+//@   ensures [C02 no_command_no_success] !sc.dry && obs.run_calls == old(obs.run_calls) ==> err != nil
+//@   ensures [C03 dry_runs_no_command] sc.dry ==> obs.run_calls == old(obs.run_calls)
 //@   ensures [C03 dry_no_exec] sc.dry ==> err == nil && nexec == old(nexec) && eff.exec == old(eff.exec) && eff.fs == old(eff.fs) &&
 //@        eff.env == old(eff.env) && dirty == old(dirty) && execfail == old(execfail)
 //@   ensures !sc.dry ==> nexec == upd(old(nexec), n, old(nexec[n]) + 1) && execfail == upd(old(execfail), n, err != nil) &&
@@ -467,9 +502,10 @@ package scheduler
 //@        (graph.nodes[i].data.Step.Name == old(steps[i].Name) && graph.nodes[i].data.Step.Depends == old(steps[i].Depends) &&
 //@         graph.nodes[i].data.State.Status == NodeStatusNone && has(graph.dict, graph.nodes[i].id) && graph.dict[graph.nodes[i].id] == graph.nodes[i])
 
-// hasCycle, memory safety only (unbounded): no nil-map write, no index out of range on the work list.
+// hasCycle, memory safety and frame (unbounded): no nil-map write, no index out of range on the work list, and
+// nothing that existed before the call is written — in particular not the adjacency lists it walks.
 //@ fn (*ExecutionGraph).hasCycle(g) (r) variant safety
-//@   props C14
+//@   props C14 C01
 //@   safety
 //@   requires nodes_wf(g)
-//@   modifies *
+//@   modifies heap(alloc)
